@@ -214,6 +214,12 @@ class Sx:
         CTX.safety("log", self.n)
         return Sx(dag.atom("log", self.n))
 
+    def __float__(self):
+        # only exact constants convert (structures with concrete zeros meet float arrays in the native replay)
+        if self.n is not TOK and self.n.op == "c":
+            return float(self.n.args[0])
+        raise TypeError("float() of a symbolic value")
+
     def sqrt(self):
         n = self.n
         if n is TOK:
@@ -813,6 +819,18 @@ class Ctx:
         names = set(self.zmap.names) | set(self.pmap.names) | set(self.var_range)
         return {nm: smt.model_value(m, nm) for nm in names}
 
+    def pre_holds_at(self, env):
+        """does the precondition (not the path condition) hold numerically at env?"""
+        memo = {}
+        try:
+            for node, S in self.pre:
+                v = dag.fev(node, env, memo)
+                if v != v or ((v > 0) - (v < 0)) not in S:
+                    return False
+        except (ZeroDivisionError, ValueError, OverflowError, KeyError):
+            return False
+        return True
+
     def holds_at(self, env, tol=0.0):
         """do pre and PC hold numerically (true functions) at env?"""
         memo = {}
@@ -907,7 +925,35 @@ def activate(ctx, res):
 
 
 # ---------------------------------------------------------------- arrays
+NATIVE = False      # True while a contract is replayed on float64 inputs (engine/runner.py generic_native)
+
+
+class FloatCtx:
+    """stand-in for Ctx while a contract's build() is re-run on one concrete point: variables are floats of that point,
+    assumptions are not recorded (the point already satisfies pre and PC)."""
+    concrete = True
+
+    def __init__(self, env):
+        self.env = env
+        self.samplers = []
+        self.var_range = {}
+        self.pre = []
+
+    def var(self, name, sign=None, lo=None, hi=None):
+        return float(self.env[name])
+
+    def __getattr__(self, k):
+        if k.startswith("assume") or k in ("note", "fact"):
+            return lambda *a, **kw: None
+        raise AttributeError(k)
+
+
 def sym_array(ctx, name, shape, sign=None, lo=None, hi=None):
+    if getattr(ctx, "concrete", False):
+        A = np.empty(shape, dtype=float)
+        for idx in np.ndindex(*shape):
+            A[idx] = ctx.var(name + "_" + "_".join(map(str, idx)), sign, lo, hi)
+        return A
     A = np.empty(shape, dtype=object)
     for idx in np.ndindex(*shape):
         A[idx] = ctx.var(name + "_" + "_".join(map(str, idx)), sign, lo, hi)
